@@ -141,7 +141,7 @@ fn cmd_drive(args: &[String]) -> i32 {
         "multi_worker_processes": st.multi_worker_sessions,
         "environment_dimensions_exercised": {"processes_under_a_host_executable_name": st.dim_host_named, "processes_with_a_manifest_on_disk": st.dim_manifest_on_disk,
             "processes_with_cargo_variables": st.dim_cargo_vars, "processes_pinned_to_a_cpu_subset": st.dim_cpu_pinned, "processes_with_seeded_hostname_or_uid": st.dim_hostname_uid,
-            "processes_in_a_sub_directory": st.dim_cwd_subdir, "processes_on_a_terminal": st.dim_tty, "processes_with_resource_limits": st.dim_rlimits, "processes_with_lock_toolchain_or_cargo_config_files": st.dim_config_files, "processes_serving_1000_or_more_requests": st.long_processes},
+            "processes_in_a_sub_directory": st.dim_cwd_subdir, "processes_on_a_terminal": st.dim_tty, "processes_with_resource_limits": st.dim_rlimits, "processes_with_fast_or_jumping_clock": st.dim_clock_rate, "processes_with_stub_programs_on_path": st.dim_toolbin, "processes_with_lock_toolchain_or_cargo_config_files": st.dim_config_files, "processes_serving_1000_or_more_requests": st.long_processes},
         "distinct_entropy_seeds": st.entropy_seeds.len(), "distinct_layouts": st.layouts.len(),
         "distinct_keys": st.keys_seen.len(), "distinct_contexts": st.contexts.len(), "distinct_nontrivial_contexts": nontrivial,
         "environment_seams_consulted_by_the_code": {"getrandom_calls": st.seam_getrandom, "clock_calls": st.seam_clock, "getpid_calls": st.seam_getpid,
